@@ -628,11 +628,11 @@ def declare_channel_api(w):
         i = C(h, c, "id")
         err = a.sv("error")
         q = C(h, c, "_items")
-        peer_closed_first = ev_set(h, C(h, c, "_receiveclosed"))
         fr = z3.If(err.v[0], frame(z3.IntVal(M_CLOSE), i, z3.StringVal("")), frame(z3.IntVal(M_CLOSE_ERROR), i, enc_item(err2u(err.v[1].v))))
         return [C(h2, c, "_closed"), ev_set(h2, C(h, c, "_receiveclosed")),
-                # one close frame, ordered after everything this thread sent earlier - unless the peer closed first: then none
-                z3.If(peer_closed_first, wire(h2, g) == wire(h, g), wire(h2, g) == z3.Concat(wire(h, g), z3.Unit(fr))),
+                # one close frame, ordered after everything this thread sent earlier - also in the send-only state (the peer dropped its channel object
+                # but may still have a callback waiting for the endmarker: C10); a channel the peer closed is `_closed` already (case already-closed)
+                wire(h2, g) == z3.Concat(wire(h, g), z3.Unit(fr)),
                 z3.Implies(q != 0, qc(h2, q) == z3.Concat(qc(h, q), z3.Unit(ENDM))),
                 z3.Not(registered(h2, f_, i)), z3.Not(has_cb(h2, f_, i))]    # forgotten when close() returns
 
